@@ -94,6 +94,9 @@ func runAcc(typ, field string, contents []byte, val uint64) (*accRun, bool) {
 	}
 	if f := v.FieldByName("Len"); f.IsValid() {
 		f.SetUint(uint64(len(contents)))
+		if o := v.FieldByName("Octet"); o.IsValid() && o.Kind() == reflect.Array && len(contents) > 0 {
+			f.SetUint(uint64(int(contents[0]^contents[len(contents)-1]) % (len(contents) + 1)))
+		}
 	}
 	g, s := pv.MethodByName("Get"+field), pv.MethodByName("Set"+field)
 	if !g.IsValid() || !s.IsValid() {
@@ -178,6 +181,9 @@ func runAccRA(typ, field string, contents, val []byte) (get0, after, get1 []byte
 		}
 	} else {
 		arg = reflect.ValueOf(append([]byte{}, val...))
+		if len(val) == 0 && len(contents)%2 == 1 {
+			arg = reflect.Zero(at) // an empty value passed as a nil slice
+		}
 	}
 	s.Call([]reflect.Value{arg})
 	after = getContents(v)
